@@ -138,6 +138,8 @@ def random_script(rng, eid):
 def roundtrip_script(rng, eid, flavor):
     ns = rng.randint(2, 6)
     lw = rng.choice(["1.0", "6.5"])
+    if flavor == "rawweights":
+        lw = rng.choice(["6.5", "7.5", "9.5", "2.25"])
     rlw = lw
     name = "rt%d" % rng.randrange(1000)
     probs = ["1.0", "0.5", "0.1", "0.9", "0.25", "0.01", "0.001234", "0.3333", "1e-5", "6e-7", "0.999", "0.05"]
@@ -152,7 +154,15 @@ def roundtrip_script(rng, eid, flavor):
     build = []
     for _ in range(rng.randint(2, 9)):
         f, t = rng.randrange(ns), rng.randrange(ns)
-        if rng.random() < 0.35 and f != t:
+        if flavor == "rawweights":
+            # weights given as integers (the form the API takes), anywhere on the integer grid - not only where a
+            # probability times the language weight lands
+            w = -rng.randrange(1, rng.choice([200, 20000, 60000]))
+            if rng.random() < 0.35 and f != t:
+                build.append("null %d %d L %d" % (f, t, w))
+            else:
+                build.append("trans %d %d L %d %s" % (f, t, w, rng.choice(words)))
+        elif rng.random() < 0.35 and f != t:
             build.append("null %d %d P %s" % (f, t, rng.choice(probs)))
         else:
             build.append("trans %d %d P %s %s" % (f, t, rng.choice(probs), rng.choice(words)))
@@ -604,7 +614,7 @@ def run(ctx):
         scripts.append(search_script(rng, "search#%d" % gi))
 
     # 5. write / read
-    flavors = ["plain", "plain", "tiny", "noname-null", "noname-empty", "lwx", "unclosed", "xformed"]
+    flavors = ["plain", "rawweights", "tiny", "noname-null", "noname-empty", "lwx", "unclosed", "xformed", "rawweights", "plain"]
     for gi in range(32 if quick else 400):
         fl = flavors[gi % len(flavors)]
         scripts.append(roundtrip_script(rng, "rt-%s#%d" % (fl, gi), fl))
